@@ -23,8 +23,13 @@ class Flow:
     keylog: list = field(default_factory=list)
 
 
-def tls_flow(conn, ep, segs, bad=()):
+def tls_flow(conn, ep, segs, bad=(), ethpad=False):
+    """ethpad: frames shorter than the 60-byte Ethernet minimum carry zero padding behind the IP datagram, as a receiver-side capture shows them"""
     items = [Item(tcpcap.frame(ep, s, bad_csum=(i in bad)), dir=s.dir, seg=s, tag="tcp") for i, s in enumerate(segs)]
+    if ethpad:
+        for it in items:
+            if len(it.frame) < 60:
+                it.frame = it.frame + bytes(60 - len(it.frame))
     return Flow("tls", ep, items, conn, list(conn.keylog))
 
 
@@ -134,7 +139,13 @@ def decoy_lines(flows, rng):
 
 
 def keylog_text(flows, rng=None, shuffle=True, eol="\n", decoys=False):
-    lines = [l for f in flows for l in f.keylog]
+    lines = []
+    for f in flows:
+        # hex case varies per connection (tools differ): a quarter of the connections log their client random in upper case, a quarter their secrets
+        mode = int(f.keylog[0].split(" ")[1][:2], 16) % 4 if f.keylog else 3
+        for l in f.keylog:
+            a, b, c = l.split(" ")
+            lines.append(f"{a} {b.upper() if mode == 0 else b} {c.upper() if mode == 1 else c}")
     if decoys and rng is not None:
         lines += decoy_lines(flows, rng)
     if rng is not None and shuffle:
